@@ -231,6 +231,51 @@ func (rr *realRunner) planHTTP(store *Config, pageSize int, f files, failAt int)
 	return res, mods, applyErr
 }
 
+// loadOnly: LoadDevice alone; the ids it kept, in its order (policies with their rule ids).
+func (rr *realRunner) loadOnly(store *Config, pageSize int) (out string, err error) {
+	rr.mgr.set(store, pageSize)
+	defer func() {
+		if e := recover(); e != nil {
+			err = fmt.Errorf("panic: %v", e)
+		}
+	}()
+	s := &nsx.State{}
+	dev, err := s.LoadDevice(rr.spoc, rr.cfg, nil, nil)
+	if err != nil {
+		return "", err
+	}
+	raw, _ := json.Marshal(dev)
+	var v struct {
+		Policies []struct {
+			Id    string `json:"id"`
+			Rules []struct {
+				Id string `json:"id"`
+			} `json:"rules"`
+		}
+		Groups, Services []struct {
+			Id string `json:"id"`
+		}
+	}
+	if err := json.Unmarshal(raw, &v); err != nil {
+		return "", err
+	}
+	var ps, gs, ss []string
+	for _, p := range v.Policies {
+		var rs []string
+		for _, r := range p.Rules {
+			rs = append(rs, r.Id)
+		}
+		ps = append(ps, p.Id+":"+strings.Join(rs, ";"))
+	}
+	for _, g := range v.Groups {
+		gs = append(gs, g.Id)
+	}
+	for _, x := range v.Services {
+		ss = append(ss, x.Id)
+	}
+	return strings.Join(ps, ",") + "\t" + strings.Join(gs, ",") + "\t" + strings.Join(ss, ","), nil
+}
+
 // planFiles: `drc -q FILE1 FILE2` through drc.Main (device given as a file, as the repo's own
 // tests do); FILE1 holds what LoadDevice would have kept.
 func (rr *realRunner) planFiles(loaded *Config, f files) realResult {
